@@ -57,7 +57,7 @@ struct sim_thread {
 	int is_lib;
 };
 
-#define MAXT 256
+#define MAXT 640
 static sim_thread *threads[MAXT];
 static sim_thread thread_store[MAXT];
 static int nthreads;
@@ -69,6 +69,7 @@ sim_knobs sim_k;
 sim_stats sim_st;
 void (*sim_on_deadlock)(void);
 void (*sim_on_stepcap)(void);
+void (*sim_on_capacity)(const char *what);
 uint64_t (*sim_seq_cb)(void);
 
 static uint64_t now_ns, wall_off, boot_off, start_ns;
@@ -391,6 +392,7 @@ static void reschedule(int mode) {
 		me->last_run = ++lru_clock;
 		if (sim_debug) fprintf(stderr, "  sched: t%d(h%lu,%s) -> t%d mode %d step %lu now %.6f\n", me->id, (unsigned long)me->nhooks, st_names[me->state], pick->id, mode, (unsigned long)sim_st.steps, (double)now_ns / 1e9);
 		if (pick == me) return;
+		if (!fair) pick->slice = 0;   // a fresh quantum for the thread switched in
 		if (mode == 3) { release(pick); return; }
 		me->go = 0;
 		release(pick);
@@ -453,6 +455,10 @@ static void hook_point(sim_thread *me, const volatile void *addr, int den) {
 	// fair phase: round-robin time slices, so that a thread busy with calls that never block (an event
 	// loop whose descriptor stays ready) cannot starve the others; a pure function of the run, no tape entry
 	if (fair && ++me->slice >= 512) { me->slice = 0; reschedule(0); return; }
+	// outside the fair phase a thread that never blocks still loses the processor eventually (quantum): without it
+	// a run-to-block strategy lets one worker push to an overcommit queue and drain it for ever, each push creating
+	// another thread that never gets to run
+	if (!fair && ++me->slice >= (sim_k.strategy == STRAT_FAIR ? 512 : 16384)) { me->slice = 0; if (sim_k.strategy == STRAT_PCT) me->prio = -1; reschedule(0); return; }
 	// injected stall: the thread sleeps for a span of simulated time at this very point
 	if (sim_k.stall_k || tape_replay || me->arm_ord) {
 		uint32_t code = 0;
@@ -576,7 +582,7 @@ static void *trampoline(void *p) {
 	return r;
 }
 static sim_thread *new_thread(void *(*fn)(void *), void *arg, const char *name) {
-	if (nthreads >= MAXT) sim_fatal("too many threads");
+	if (nthreads >= MAXT) { if (sim_on_capacity) sim_on_capacity("more threads were created in one run than the simulator has slots for"); sim_fatal("too many threads"); }
 	sim_thread *t = &thread_store[nthreads];
 	memset(t, 0, sizeof *t);
 	t->id = nthreads; t->vtid = 1000 + nthreads; t->state = ST_RUNNABLE;
